@@ -60,6 +60,8 @@ def _worker(wfd, cases, run_case, next_idx, case_timeout, init):
             signal.setitimer(signal.ITIMER_REAL, 0.0)
             out.write(json.dumps({"done": i, "res": res}) + "\n")
             out.flush()
+            if isinstance(res, dict) and res.get("_abort"):
+                break  # the engine's process state is unusable (e.g. an abandoned simulated region)
     finally:
         if cov is not None:
             try:
@@ -137,10 +139,10 @@ def run_pool(cases, run_case, nproc=None, case_timeout=300, wall_budget=None, in
                 del workers[fd]
                 if w["current"] is not None:
                     results[w["current"]] = {"crashed": status}
-                    with next_idx.get_lock():
-                        remaining = next_idx.value < len(cases)
-                    if remaining:
-                        spawn()
+                with next_idx.get_lock():
+                    remaining = next_idx.value < len(cases)
+                if remaining and len(workers) < nproc:
+                    spawn()  # replace a worker that died or retired itself
     return results
 
 
@@ -233,6 +235,11 @@ def run_engine(engine, prop, argv=None):
         if res is None or "crashed" in res or "harness_error" in res:
             if res and "crashed" in res and "crash" in rp.get("violation", {}).get("key", "").split(":"):
                 print("VIOLATION property=%s replay=%s (reproduced crash)" % (prop, args.replay))
+                return 1
+            if res and "crashed" in res and fatal_signal(res["crashed"]) is not None:
+                # the recorded violation was a wrong result; replaying it now kills the process
+                # (memory fault in the code under test): still a failing replay, not a pass
+                print("VIOLATION property=%s replay=%s (replay died with signal %d; recorded key=%s)" % (prop, args.replay, fatal_signal(res["crashed"]), rp.get("violation", {}).get("key")))
                 return 1
             print("HARNESS-ERROR property=%s stage=replay %r" % (prop, res), flush=True)
             return 2
@@ -352,6 +359,8 @@ def run_engine(engine, prop, argv=None):
                     v = v2
             except Exception:
                 log("minimise failed:\n" + traceback.format_exc())
+        if isinstance(v.get("replay"), dict) and "violation" not in v["replay"]:
+            v["replay"]["violation"] = {"key": v["key"], "detail": v.get("detail")}
         path = write_replay(prop, v, seed)
         reported.append({"key": v["key"], "detail": v.get("detail"), "replay": path})
         print("VIOLATION property=%s replay=%s key=%s detail=%s" % (prop, path, v["key"], str(v.get("detail"))[:300]), flush=True)
